@@ -1,5 +1,7 @@
 import Juniper.Proofs.IterReduce
 import Juniper.Proofs.StreamReduce
+import Juniper.Proofs.IterRuns
+import Juniper.Proofs.StreamRuns
 /-!
 # C07 — iterator / stream / xslices combinators compute their documented sequence function;
 lazy; sticky end (property theorems)
@@ -118,6 +120,18 @@ theorem while_denotes (f : α → Bool) {m : IM σ α} {cost : σ → Nat} {s : 
     (h : Den m cost s L e) :
     Den (while_ f m) (fun st => cost st.inner) ⟨s, false⟩ (L.takeWhile fun p => f p.1) (whileEnd f L e) :=
   while_den f h
+
+/-- `iterator.Runs(it, same)` used as documented (outer `Next`; read the inner iterator to its end —
+`take = none` — or take at most `take` items; advance): for a reflexive `same` it yields the maximal
+runs of neighbours related by `same` — exactly `Seq.runs`, the function `xslices.Runs` computes —
+each delivered as soon as the item after it has been pulled. No symmetry or transitivity is needed. -/
+theorem runs_denotes (same : α → α → Bool) (hrefl : ∀ a, same a a = true) (take : Option Nat)
+    {m : IM σ α} {cost : σ → Nat} {s : σ} {L : List (α × Nat)} {e : Nat} (h : Den m cost s L e) (gen : Nat) :
+    Den (runsProto same take m) (rcost cost) ⟨⟨⟨s, none⟩, gen, none⟩, none⟩ (runsStartA same take L e) e ∧
+      (runsStartA same none L e).map Prod.fst = Seq.runs same (L.map Prod.fst) :=
+  ⟨(runs_den same hrefl take h).2.2 gen, runsStartA_all_fst same L e⟩
+
+example : Seq.runs (fun a b : Nat => a ≤ b) [1, 3, 2, 2, 5, 0] = [[1, 3], [2, 2, 5], [0]] := by decide
 
 /-! ### laziness in closed form (the `need_C` of each combinator, over a slice source) -/
 
@@ -249,6 +263,18 @@ theorem s_flatten_denotes {mo : SM σ τ} {mi : SM τ α} {co : σ → Nat} (D :
 theorem s_join_denotes {m : SM σ α} (D : σ → List α × Term) (ss : List σ)
     (hD : ∀ s ∈ ss, ∃ (ci : σ → Nat) (Li : List (α × Nat)), SDen soft m ci s Li (D s).2 ∧ Li.map Prod.fst = (D s).1) :
     SDen soft (Stream.join m) (fun _ => 0) ⟨ss, []⟩ (joinS D ss).1 (joinS D ss).2 := join_sden D ss hD []
+
+/-- `stream.Runs` used as documented, faults included: a failure drops the run being collected and
+is reported itself. -/
+theorem s_runs_denotes (same : α → α → Bool) (hrefl : ∀ a, same a a = true) (take : Option Nat) (closeInner : Bool)
+    {m : SM σ α} {cost : σ → Nat} {s : σ} {L : List (α × Nat)} {t : Term} (h : SDen soft m cost s L t) (gen : Nat) :
+    SDen soft (Stream.runsProto same take closeInner m) (StreamDen.rcost cost) ⟨⟨⟨s, none⟩, gen, none⟩, none⟩
+      (runsStartS same take L t) t :=
+  (runs_sden same hrefl take closeInner h).2.2 gen
+
+/-- … and on a stream that ends, with `take = none`, these are exactly the documented runs. -/
+theorem s_runs_spec (same : α → α → Bool) (L : List (α × Nat)) (e : Nat) :
+    (runsStartS same none L (.end_ e)).map Prod.fst = Seq.runs same (L.map Prod.fst) := runsStartS_all_fst same L e
 
 /-- `stream.Collect` / `Reduce` / `xrand.SampleStream` on a fault-free stream return the documented value. -/
 theorem s_collect_eq {m : SM σ α} {cost : σ → Nat} {s : σ} {L : List (α × Nat)} {e : Nat}
